@@ -169,4 +169,104 @@ theorem flatC_unflatC (ns : List Nat) (k : Nat) (h : ∀ n ∈ ns, 0 < n) (hk : 
     rw [ih _ (fun m hm => h m (by simp [hm])) (Nat.mod_lt _ hp)]
     rw [Nat.mul_comm]; exact Nat.div_add_mod k (natProd ns)
 
+
+theorem natProd_append (a b : List Nat) : natProd (a ++ b) = natProd a * natProd b := by
+  induction a with
+  | nil => simp [natProd]
+  | cons x xs ih => simp [natProd, ih, Nat.mul_assoc]
+
+theorem natProd_reverse (a : List Nat) : natProd a.reverse = natProd a := by
+  induction a with
+  | nil => rfl
+  | cons x xs ih => simp [natProd_append, natProd, ih, Nat.mul_comm]
+
+theorem unflatF_append (a b : List Nat) (k : Nat) :
+    unflatF (a ++ b) k = unflatF a k ++ unflatF b (k / natProd a) := by
+  induction a generalizing k with
+  | nil => simp [unflatF, natProd]
+  | cons x xs ih =>
+    simp only [List.cons_append, unflatF, natProd, ih]
+    rw [Nat.div_div_eq_div_mul]
+
+theorem unflatF_mod (ns : List Nat) (k : Nat) : unflatF ns (k % natProd ns) = unflatF ns k := by
+  induction ns generalizing k with
+  | nil => simp [unflatF]
+  | cons n ns ih =>
+    simp only [unflatF, natProd]
+    congr 1
+    · exact Nat.mod_mul_right_mod k n (natProd ns)
+    · rw [Nat.mod_mul_right_div_self, ih]
+
+theorem range_mul_map {α} (r P : Nat) (f : Nat → α) :
+    (List.range (r * P)).map f = (List.range r).flatMap fun i => (List.range P).map fun j => f (i * P + j) := by
+  induction r with
+  | zero => simp
+  | succ r ih =>
+    rw [Nat.succ_mul, List.range_add, List.map_append, ih, List.range_succ, List.flatMap_append]
+    simp [List.map_map, Function.comp_def]
+
+theorem flatMap_congr' {α β} (l : List α) (f g : α → List β) (h : ∀ x ∈ l, f x = g x) :
+    l.flatMap f = l.flatMap g := by
+  induction l with
+  | nil => rfl
+  | cons x xs ih =>
+    simp only [List.flatMap_cons]
+    rw [h x (by simp), ih fun y hy => h y (by simp [hy])]
+
+/-- `itertools.product` (last factor fastest) enumerates multi-indices in C order -/
+theorem product_eq_unflatC (rs : List Nat) :
+    productLastFastest rs = (List.range (natProd rs)).map (unflatC rs) := by
+  induction rs with
+  | nil => simp [productLastFastest, natProd, unflatC]
+  | cons r rs ih =>
+    simp only [productLastFastest, natProd]
+    rw [range_mul_map, ih]
+    apply flatMap_congr'
+    intro i _
+    rw [List.map_map]
+    apply List.map_congr_left
+    intro j hj
+    have hjP : j < natProd rs := List.mem_range.mp hj
+    have hP : 0 < natProd rs := by omega
+    simp only [Function.comp, unflatC]
+    have h1 : (i * natProd rs + j) / natProd rs = i := by
+      rw [Nat.add_comm, Nat.add_mul_div_right _ _ hP, Nat.div_eq_of_lt hjP, Nat.zero_add]
+    have h2 : (i * natProd rs + j) % natProd rs = j := by
+      rw [Nat.add_comm, Nat.add_mul_mod_self_right, Nat.mod_eq_of_lt hjP]
+    rw [h1, h2]
+
+theorem reverse_unflatC (rs : List Nat) (k : Nat) (hk : k < natProd rs) :
+    (unflatC rs k).reverse = unflatF rs.reverse k := by
+  induction rs generalizing k with
+  | nil => simp [unflatC, unflatF]
+  | cons r rs ih =>
+    simp only [natProd] at hk
+    have hP : 0 < natProd rs := by
+      rcases Nat.eq_zero_or_pos (natProd rs) with h | h
+      · rw [h] at hk; simp at hk
+      · exact h
+    simp only [unflatC, List.reverse_cons]
+    rw [ih _ (Nat.mod_lt _ hP), unflatF_append, natProd_reverse]
+    have hm := unflatF_mod rs.reverse k
+    rw [natProd_reverse] at hm
+    rw [hm]
+    congr 1
+    simp only [unflatF]
+    have : k / natProd rs < r := by
+      rw [Nat.div_lt_iff_lt_mul hP]; exact hk
+    rw [Nat.mod_eq_of_lt this]
+
+
+/-- `Mesh.indices` (reversed `itertools.product` over the reversed counts, each tuple
+reversed) enumerates every multi-index exactly once with the first dimension fastest. -/
+theorem indicesCode_eq_indicesF (ns : List Nat) : indicesCode ns = indicesF ns := by
+  unfold indicesCode indicesF
+  rw [product_eq_unflatC, List.map_map, natProd_reverse]
+  apply List.map_congr_left
+  intro k hk
+  have hk' : k < natProd ns.reverse := by rw [natProd_reverse]; exact List.mem_range.mp hk
+  simp only [Function.comp]
+  rw [reverse_unflatC _ _ hk', List.reverse_reverse]
+
+
 end DFV
